@@ -210,6 +210,11 @@ func Guard(fn func()) (panicked bool, class, site, detail string) {
 	return
 }
 
+// ClassifyPanic gives class and site for a panic recovered elsewhere (message and stack).
+func ClassifyPanic(msg, stack string) (class, site string) {
+	return "panic:" + PanicClass(msg), TopLibFrame(stack)
+}
+
 // PanicClass reduces a panic message to a stable class.
 func PanicClass(msg string) string {
 	m := strings.ToLower(msg)
